@@ -173,6 +173,17 @@ def krylov_ctor(idx, rep, rule, rets):
         rep.decide(ok, "function-rule", rule.role, f"constructs {ast.unparse(c)[:60]}" + ("" if ok else f"; expected ({a}, {fp}, ...)"), detail="" if ok else "args", locs=[idx.loc(fi.module, r)])
 
 
+def int_test(test, k):
+    """the test on the integer exponent, with the local's name normalised to `k`"""
+    t = ast.parse(ast.unparse(test), mode="eval").body
+    for n in ast.walk(t):
+        if isinstance(n, ast.Name) and n.id == k:
+            n.id = "k"
+        elif isinstance(n, ast.Name) and n.id == "k":
+            n.id = "_other_k"
+    return ast.unparse(t).replace(" ", "")
+
+
 def generic_pow(idx, rep, rule, te):
     fi = rule.func
     a, al, algp = rule.params[0][0], rule.params[1][0], rule.params[2][0]
@@ -184,17 +195,27 @@ def generic_pow(idx, rep, rule, te):
         and isinstance(final[-1].value.args[0].body.op, ast.Pow)
     rep.decide(ok, "pow-shortcut", "pow:general", f"general case applies x -> x ** {al}" if ok else "general case does not raise to the given exponent", detail="" if ok else "exponent", locs=[loc])
     # k == 0 -> identity ; 0 < k < 10 -> k-fold product ; k == -1 -> inverse with the algorithm map
+    # k is whatever local receives int(round(alpha)) -- found structurally, not by name
+    kname = None
     for n in df.body_nodes(src):
-        if not isinstance(n, ast.If) or not isinstance(n.test, (ast.Compare, ast.BoolOp)):
+        tgt = val = None
+        if isinstance(n, ast.NamedExpr):
+            tgt, val = n.target, n.value
+        elif isinstance(n, ast.Assign) and len(n.targets) == 1:
+            tgt, val = n.targets[0], n.value
+        if isinstance(tgt, ast.Name) and isinstance(val, ast.Call) and isinstance(val.func, ast.Name) and val.func.id == "int" and al in df.names_in(val):
+            kname = tgt.id
+    for n in df.body_nodes(src):
+        if kname is None or not isinstance(n, ast.If) or not isinstance(n.test, (ast.Compare, ast.BoolOp)):
             continue
-        test = ast.unparse(n.test).replace(" ", "")
+        test = int_test(n.test, kname)
         rets = [x for st in n.body for x in ast.walk(st) if isinstance(x, ast.Return)]
         if test == "k==0" and rets:
             t = norm(te.eval_in(fi, rets[0].value))
             rep.decide(t == I, "pow-shortcut", "pow:k=0", f"A^0 returns {show(t)}", detail="" if t == I else "identity", locs=[idx.loc(fi.module, n)])
         elif test.startswith("k>0") and rets:
             rv = rets[0].value
-            ok = isinstance(rv, ast.Call) and len(rv.args) == 1 and ast.unparse(rv.args[0]).replace(" ", "") == f"[{a}]*k"
+            ok = isinstance(rv, ast.Call) and len(rv.args) == 1 and ast.unparse(rv.args[0]).replace(" ", "") == f"[{a}]*{kname}"
             helper = idx.resolve_expr(fi.module, rv.func, fi) if isinstance(rv, ast.Call) else None
             if ok and helper is not None and helper.kind == "funcs":
                 body = ast.unparse(helper.val[-1].node)
